@@ -40,7 +40,7 @@ fn strings(tier: Tier) -> Vec<Vec<u8>> {
     // long-bracket threshold family
     for len in [19usize, 20, 21, 59, 60, 61, 100] {
         for newlines in [0usize, 1, 5, 6, 7] {
-            for tail in ["", "]", "]]", "]=]", "]==]", "]]]", "\n", "\r", "\r\n", "\\"] {
+            for tail in ["", "]", "]]", "]=]", "]==]", "]]]", "\n", "\r", "\r\n", "\\", "]=", "]==", "=", "]=]=", "[", "[["] {
                 for lead in ["", "\n", "\r\n", "\r", "[[", "[=["] {
                     for mid in ["", "]]", "]=]", "\"", "'", "\"'", "\0", "--", "\\n"] {
                         let mut s = Vec::new();
@@ -218,6 +218,15 @@ fn check_number(v: f64) -> (u64, Vec<Violation>) {
     let mut n = 0;
     let mut out = Vec::new();
     let mut trees: Vec<(String, Expression)> = vec![("Expression::from(f64)".to_owned(), Expression::from(v))];
+    if !v.is_finite() && !(v < 0.0) {
+        // what parsing `1e999` produces: a non-finite decimal with a recorded exponent
+        for e in [0i64, 1, 308, 999, -5] {
+            for upper in [false, true] {
+                trees.push((format!("DecimalNumber(non-finite) with_exponent({}, {})", e, upper), DecimalNumber::new(v).with_exponent(e, upper).into()));
+            }
+        }
+        trees.push(("DecimalNumber::new(non-finite)".to_owned(), DecimalNumber::new(v).into()));
+    }
     if v.is_finite() && v >= 0.0 {
         trees.push(("DecimalNumber::new".to_owned(), DecimalNumber::new(v).into()));
         let e10 = if v == 0.0 { 0 } else { v.log10().floor() as i64 };
@@ -303,7 +312,27 @@ fn check_parse(text: &str) -> Option<Violation> {
                 _ => None,
             };
             match value {
-                Some(v) if v.to_bits() == expected.to_bits() || (v.is_nan() && expected.is_nan()) => None,
+                Some(v) if v.to_bits() == expected.to_bits() || (v.is_nan() && expected.is_nan()) => {
+                    // the parsed literal written back by every generator must still denote the same number
+                    for gen in [Gen::Dense(80), Gen::Readable(80), Gen::Retain] {
+                        let text2 = match dl::generate(&block, &src, gen) {
+                            Ok(t) => t,
+                            Err(e) => return Some(Violation { finding: None, summary: format!("{} writing literal `{}`", e, text), replay: json!({"text": text}) }),
+                        };
+                        let want = ser(expected);
+                        match eval_number_text(&text2) {
+                            Ok(r) if r == want => {}
+                            other => {
+                                return Some(Violation {
+                                    finding: None,
+                                    summary: format!("literal `{}` (value {}) parsed and written back by {} as `{}` reads as {:?}", text, want, gen.name(), text2.trim(), other),
+                                    replay: json!({"kind": "number rewrite", "text": text, "generator": gen.name(), "output": text2}),
+                                })
+                            }
+                        }
+                    }
+                    None
+                }
                 other => Some(Violation {
                     finding: None,
                     summary: format!("literal `{}` parsed by darklua as {:?}, Luau value is {:?}", text, other, expected),
